@@ -38,7 +38,7 @@ Proof. exact por_short. Qed.
 Print Assumptions C11_or_short_circuit.
 
 (* NOT: every descriptor the code declares under the name "not" computes Kleene negation, provided the
-   operand's value is admitted by the operand's static type (a NULL is only caught if the static type admits
+   operand's value is allowed by the operand's static type (a NULL is only caught if the static type allows
    NULL: that is how Materialize decides where to put null checks; C08 discharges the hypothesis). *)
 Theorem C11_not : forall t d ctx a v,
   In d function_table -> fd_name d = "not" ->
